@@ -435,6 +435,19 @@ def suspend_gate():
     return Workload("gate", [St("A"), St("G", ("A",), tasks=[("t", {"kind": "suspend"})]), St("Z", ("G",))])
 
 
+def suspend_gate_multi():
+    """The gate stage has a second task behind the suspending one."""
+    return Workload("gate_multi", [St("A"), St("G", ("A",), tasks=[("t", {"kind": "suspend"}), ("t2", {"kind": "ok"})]),
+                                   St("Z", ("G",))])
+
+
+def jump_forward_gate():
+    """A jumps forward over B straight to the gate G (re-arming G, which has not run yet) ; G -> Z."""
+    return Workload("jump_forward_gate", [
+        St("A", tasks=[("t", {"kind": "jump", "target": "G", "times": 1})]), St("B", ("A",)),
+        St("G", ("B",), tasks=[("t", {"kind": "suspend"})]), St("Z", ("G",))])
+
+
 def suspend_gate_n(need=2):
     """The gate's task needs `need` signals and suspends once per signal."""
     return Workload(f"gate{need}", [St("A"), St("G", ("A",), tasks=[("t", {"kind": "suspend_n", "need": need})]),
